@@ -10,9 +10,10 @@ set_option linter.unusedSimpArgs false
 variable {K : Type} [Num K]
 
 /-- the property proved by induction over the recursion -/
-def RebalP (ws : Array (WsItem K)) (N0 P0 : Nat) (q : Q K) (indices : Array Nat) (par plane : Nat)
+def RebalP (ws : Array (WsItem K)) (margin : K) (N0 P0 : Nat) (q : Q K) (indices : Array Nat) (par plane : Nat)
     (r : Q K × Nat × Aabb3 K) : Prop :=
-  StOk ws N0 P0 q → indices.toList.Nodup → (∀ i ∈ indices, i < ws.size) → RebalOut ws q indices par plane r.1 r.2.1
+  StOk ws N0 P0 q → indices.toList.Nodup → (∀ i ∈ indices, i < ws.size) →
+    RebalOut ws margin q indices par plane r.1 r.2.1 r.2.2
 
 theorem keptIn_split {ws : Array (WsItem K)} {indices s0 s1 s2 s3 : Array Nat}
     (hmem : ∀ x, x ∈ indices ↔ (x ∈ s0 ∨ x ∈ s1 ∨ x ∈ s2 ∨ x ∈ s3)) (k : Nat) :
@@ -63,10 +64,10 @@ theorem leafIn_disjoint {ws : Array (WsItem K)} {N0 P0 : Nat} (wok : WsOk ws N0 
 
 theorem rebalRec_spec (ws : Array (WsItem K)) (N0 P0 : Nat) (wok : WsOk ws N0 P0) (margin : K) (fuel : Nat) (q : Q K)
     (indices : Array Nat) (par plane : Nat) (r : Q K × Nat × Aabb3 K)
-    (h : rebalRec ws margin fuel q indices par plane = some r) : RebalP ws N0 P0 q indices par plane r := by
-  refine rebalRec_induct ws margin (RebalP ws N0 P0) ?_ ?_ fuel q indices par plane r h
+    (h : rebalRec ws margin fuel q indices par plane = some r) : RebalP ws margin N0 P0 q indices par plane r := by
+  refine rebalRec_induct ws margin (RebalP ws margin N0 P0) ?_ ?_ fuel q indices par plane r h
   · intro q indices par plane r hsz h hst hnd _
-    exact rebalLeaf_spec ws N0 P0 wok q indices par plane r hsz h hst hnd
+    exact rebalLeaf_spec ws N0 P0 wok margin q indices par plane r hsz h hst hnd
   · intro q indices par plane center d0 d1 q0 nid s0 s1 s2 s3 q1 q2 q3 q4 c0 c1 c2 c3 b0 b1 b2 b3 nd hsz hcd hal hsp
       p0 p1 p2 p3 _ _ _ _ hnd4 hst hnodup hrange
     obtain ⟨fA, pA, aA, lA, sA, nA⟩ := allocOpen_spec q par plane N0 hst.flNodup hst.flLt hst.n0 q0 nid hal
@@ -139,6 +140,7 @@ theorem rebalRec_spec (ws : Array (WsItem K)) (N0 P0 : Nat) (wok : WsOk ws N0 P0
     -- the final state
     have hlt4 : nid < q4.nodes.size := Nat.lt_of_lt_of_le lA f04.nsize
     generalize hcl : closedNode nd c0 c1 c2 c3 (loosened4 margin b0 b1 b2 b3) = cl
+    have hclb : cl.boxes = loosened4 margin b0 b1 b2 b3 := by rw [← hcl]; rfl
     have hne : ∀ m, m ≠ nid → (q4.nodes.setIfInBounds nid cl)[m]? = q4.nodes[m]? := by
       intro m hm; simp [Array.getElem?_setIfInBounds, Ne.symm hm]
     have hN5 : (q4.nodes.setIfInBounds nid cl)[nid]? = some cl := by
@@ -244,7 +246,7 @@ theorem rebalRec_spec (ws : Array (WsItem K)) (N0 P0 : Nat) (wok : WsOk ws N0 P0
       have f := fA.trans f04
       obtain ⟨pp, e⟩ := f.fl
       exact ⟨by rw [e5p]; exact f.psize, by rw [e5n]; simpa using f.nsize, ⟨pp, by rw [e5f]; exact e⟩, by rw [e5d]; exact f.dirty⟩
-    refine ⟨hframe, ?_, ?_, ?_, ?_, ?_, ?_, ?_⟩
+    refine ⟨hframe, ?_, ?_, ?_, ?_, ?_, ?_, ?_, ?_⟩
     · intro n hn hk
       rw [hAl5 n] at hn
       rw [keptIn_split hmem n] at hk
@@ -304,6 +306,119 @@ theorem rebalRec_spec (ws : Array (WsItem K)) (N0 P0 : Nat) (wok : WsOk ws N0 P0
       · exact Nat.lt_of_lt_of_le (o1.alLt n hn') f24.nsize
       · exact Nat.lt_of_lt_of_le (o2.alLt n hn') f34.nsize
       · exact o3.alLt n hn'
+
+    · -- boxes
+      intro bc cur hpre hsmall hpsmall
+      have hs5 : q5.nodes.size = q4.nodes.size := by rw [e5n]; simp
+      have z01 := f01.nsize; have z12 := f12.nsize; have z23 := f23.nsize; have z34 := f34.nsize
+      have zA := fA.nsize
+      have w1 : q1.nodes.size ≤ MAXN := by omega
+      have w2 : q2.nodes.size ≤ MAXN := by omega
+      have w3 : q3.nodes.size ≤ MAXN := by omega
+      have w4 : q4.nodes.size ≤ MAXN := by omega
+      have y0 : q0.proxies.size ≤ MAXN := by rw [fA.psize]; exact hpsmall
+      have y1 : q1.proxies.size ≤ MAXN := by rw [f01.psize]; exact y0
+      have y2 : q2.proxies.size ≤ MAXN := by rw [f12.psize]; exact y1
+      have y3 : q3.proxies.size ≤ MAXN := by rw [f23.psize]; exact y2
+      have y4 : q4.proxies.size ≤ MAXN := by rw [f34.psize]; exact y3
+      have y5 : q5.proxies.size ≤ MAXN := by rw [e5p]; exact y4
+      -- the workspace boxes, seen from the state in which each call starts
+      have pre0 : BoxPre ws cur q0 s0 := by
+        intro i hi it e
+        obtain ⟨g1, g2⟩ := hpre i ((hmem i).2 (Or.inl hi)) it e
+        refine ⟨fun hl => ?_, fun hl => ?_⟩
+        · obtain ⟨x, e1, e2⟩ := g1 hl
+          have hk : KeptIn ws s0 it.orig := ⟨i, hi, it, e, hl, rfl⟩
+          exact ⟨x, by rw [sA _ (fun e' => kA _ _ hk (by rw [e']; exact hnidA))]; exact e1, e2⟩
+        · obtain ⟨x, e1, e2⟩ := g2 hl
+          exact ⟨x, by rw [pA]; exact e1, e2⟩
+      have pre1 : BoxPre ws cur q1 s1 := by
+        intro i hi it e
+        obtain ⟨g1, g2⟩ := hpre i ((hmem i).2 (Or.inr (Or.inl hi))) it e
+        refine ⟨fun hl => ?_, fun hl => ?_⟩
+        · obtain ⟨x, e1, e2⟩ := g1 hl
+          have hk : KeptIn ws s1 it.orig := ⟨i, hi, it, e, hl, rfl⟩
+          refine ⟨x, ?_, e2⟩
+          rw [o0.nodeSame _ (k0 _ _ hk) (kk s1 s0 x10 _ hk), sA _ (fun e' => kA _ _ hk (by rw [e']; exact hnidA))]; exact e1
+        · obtain ⟨x, e1, e2⟩ := g2 hl
+          have hk : LeafIn ws s1 it.orig := ⟨i, hi, it, e, hl, rfl⟩
+          exact ⟨x, by rw [o0.proxySame _ (ll s1 s0 x10 _ hk), pA]; exact e1, e2⟩
+      have pre2 : BoxPre ws cur q2 s2 := by
+        intro i hi it e
+        obtain ⟨g1, g2⟩ := hpre i ((hmem i).2 (Or.inr (Or.inr (Or.inl hi)))) it e
+        refine ⟨fun hl => ?_, fun hl => ?_⟩
+        · obtain ⟨x, e1, e2⟩ := g1 hl
+          have hk : KeptIn ws s2 it.orig := ⟨i, hi, it, e, hl, rfl⟩
+          refine ⟨x, ?_, e2⟩
+          rw [o1.nodeSame _ (k1 _ _ hk) (kk s2 s1 x21 _ hk), o0.nodeSame _ (k0 _ _ hk) (kk s2 s0 x20 _ hk),
+            sA _ (fun e' => kA _ _ hk (by rw [e']; exact hnidA))]; exact e1
+        · obtain ⟨x, e1, e2⟩ := g2 hl
+          have hk : LeafIn ws s2 it.orig := ⟨i, hi, it, e, hl, rfl⟩
+          exact ⟨x, by rw [o1.proxySame _ (ll s2 s1 x21 _ hk), o0.proxySame _ (ll s2 s0 x20 _ hk), pA]; exact e1, e2⟩
+      have pre3 : BoxPre ws cur q3 s3 := by
+        intro i hi it e
+        obtain ⟨g1, g2⟩ := hpre i ((hmem i).2 (Or.inr (Or.inr (Or.inr hi)))) it e
+        refine ⟨fun hl => ?_, fun hl => ?_⟩
+        · obtain ⟨x, e1, e2⟩ := g1 hl
+          have hk : KeptIn ws s3 it.orig := ⟨i, hi, it, e, hl, rfl⟩
+          refine ⟨x, ?_, e2⟩
+          rw [o2.nodeSame _ (k2 _ _ hk) (kk s3 s2 x32 _ hk), o1.nodeSame _ (k1 _ _ hk) (kk s3 s1 x31 _ hk),
+            o0.nodeSame _ (k0 _ _ hk) (kk s3 s0 x30 _ hk), sA _ (fun e' => kA _ _ hk (by rw [e']; exact hnidA))]; exact e1
+        · obtain ⟨x, e1, e2⟩ := g2 hl
+          have hk : LeafIn ws s3 it.orig := ⟨i, hi, it, e, hl, rfl⟩
+          exact ⟨x, by rw [o2.proxySame _ (ll s3 s2 x32 _ hk), o1.proxySame _ (ll s3 s1 x31 _ hk),
+            o0.proxySame _ (ll s3 s0 x30 _ hk), pA]; exact e1, e2⟩
+      have bp0 := o0.box bc cur pre0 w1 y0
+      have bp1 := o1.box bc cur pre1 w2 y1
+      have bp2 := o2.box bc cur pre2 w3 y2
+      have bp3 := o3.box bc cur pre3 w4 y3
+      -- a lane of the new internal node
+      have hlane : ∀ (qi qj : Q K) (As Ks Ss : Nat → Prop) (c : Nat) (k : Nat) (b : Aabb3 K), SubS qj As Ks Ss c nid k →
+          BoxPost cur qi qj c b → (∀ n, (As n ∨ Ks n) → q5.nodes[n]? = qj.nodes[n]?) → qj.nodes.size ≤ MAXN →
+          boxContains (loosenBox margin b) (match q5.nodes[c]? with
+            | some cn => mergedBox cn.boxes
+            | none => invalidBox) = true := by
+        intro qi qj As Ks Ss c k b hs hb hT hqj
+        rcases hb.ret with ⟨rfl, rfl⟩ | ⟨x, e1, e2⟩
+        · rw [Array.getElem?_eq_none (by omega)]
+          exact bc.laws.loosen _ _ bc.hm
+        · have hc : As c ∨ Ks c := by
+            rcases hs.rootOk with ⟨e, _⟩ | ⟨h, _⟩
+            · subst e
+              have := (Array.getElem?_eq_some_iff.mp e1).1
+              omega
+            · exact h
+          rw [hT c hc, e1]
+          exact bc.laws.trans _ _ _ (bc.laws.loosen _ _ bc.hm) e2
+      refine ⟨Or.inr ⟨cl, hN55, by rw [hclb]; exact bc.laws.refl _⟩, ?_⟩
+      intro n x hn hx
+      rcases (hAl5 n).1 hn with rfl | hn' | hn' | hn' | hn'
+      · rw [hN55] at hx; cases hx
+        unfold GoodNode
+        apply containsAll_of_lanes
+        intro j bx y hbx hy
+        rw [hclb] at hbx
+        simp only [loosened4] at hbx
+        obtain ⟨b, hb, rfl⟩ := map_get4' _ _ _ _ hbx
+        simp only [freshBoxes, hclf.1, Bool.false_eq_true, if_false, hclf.2.2.2.1] at hy
+        obtain ⟨c, hc, rfl⟩ := map_get4' _ _ _ _ hy
+        rcases vec4_lane _ j b hb with rfl | rfl | rfl | rfl <;> simp at hb hc <;> subst hb hc
+        · exact hlane _ _ _ _ _ _ _ _ o0.sub bp0 hT0 w1
+        · exact hlane _ _ _ _ _ _ _ _ o1.sub bp1 hT1 w2
+        · exact hlane _ _ _ _ _ _ _ _ o2.sub bp2 hT2 w3
+        · exact hlane _ _ _ _ _ _ _ _ o3.sub bp3 hT3 w4
+      · have e := hT0 n (Or.inl hn')
+        exact goodNode_frameS cur o0.sub hT0 hS0 w1 (by omega) y1 y5 n x hn' (by rw [← e]; exact hx)
+          (bp0.good n x hn' (by rw [← e]; exact hx))
+      · have e := hT1 n (Or.inl hn')
+        exact goodNode_frameS cur o1.sub hT1 hS1 w2 (by omega) y2 y5 n x hn' (by rw [← e]; exact hx)
+          (bp1.good n x hn' (by rw [← e]; exact hx))
+      · have e := hT2 n (Or.inl hn')
+        exact goodNode_frameS cur o2.sub hT2 hS2 w3 (by omega) y3 y5 n x hn' (by rw [← e]; exact hx)
+          (bp2.good n x hn' (by rw [← e]; exact hx))
+      · have e := hT3 n (Or.inl hn')
+        exact goodNode_frameS cur o3.sub hT3 hS3 w4 (by omega) y4 y5 n x hn' (by rw [← e]; exact hx)
+          (bp3.good n x hn' (by rw [← e]; exact hx))
 
 /-! ## termination: the fuel suffices -/
 
